@@ -182,7 +182,7 @@ PROPS = {
                           'interleaving model); the known finding K2 (counter assertion of Tree::put) is matched by its message. '
                           'Sequential histories (a special case of interleavings) with panic capture and the ownership oracle: ' + S_RULE),
         'partial': ('refuted for the unchanged code by a kernel-checked schedule (K1, known finding); sequential half proved for every history; every '
-                    'interleaving proved for the whole lower allocator and for the whole public interface (get every path, put at allocation order, drain; valid parameters): no call panics (conc_public_api_no_panic), held frees succeed at the lower level; partial frees of huge allocations are the refuted case K1; change_tree under interleavings explored, not proved'),
+                    'interleaving proved for the whole lower allocator and for the whole public interface (get every path, put at allocation order, drain; valid parameters): no call panics (conc_public_api_no_panic), every free of a held block returns Ok (conc_public_put_of_held_succeeds), also with concurrent change_tree calls that change classes or take trees offline (conc_public_api_no_panic_with_tree_changes); partial frees of huge allocations are the refuted case K1, change_tree(Online) racing with a free the refuted case K2'),
         'assumptions': ['hooked atomics: a yield point before every Atom access; compare_exchange never fails spuriously'],
     },
     'C04': {
@@ -198,7 +198,7 @@ PROPS = {
                           'stats_at / is_free probes; validate() must not panic while no tree is offline. Concurrent: the same at the quiescent '
                           'end of every explored schedule. ' + T_RULE) + E_RULE,
         'partial': ('exact views (stats, stats_at huge/tree), the per-tree identity fast + hidden = exact, the tree_stats program (no panic, read-only, total = tree counters + reservations) '
-                    'validate(), stats_at(frame, 0), is_free (all orders) proved; at the quiescent end of EVERY interleaving of public calls (get, put at allocation order, drain) in which every call returned the whole sequential invariant holds again (conc_quiescent_upper_invariant): fast = exact - offline and validate() there are theorems; interleavings with a trapped call, partial frees of huge allocations (K1) and change_tree under interleavings are carried by the correspondence'),
+                    'validate(), stats_at(frame, 0), is_free (all orders) proved; at the quiescent end of EVERY interleaving of public calls (get, put at allocation order, drain) in which every call returned the whole sequential invariant holds again (conc_quiescent_upper_invariant): fast = exact - offline and validate() there are theorems; the same with concurrent change_tree calls that change classes or take trees offline (conc_quiescent_with_tree_changes); interleavings with a trapped call and partial frees of huge allocations (K1) are carried by the correspondence; change_tree(Online) racing with a free is the refuted case K3'),
         'assumptions': [],
     },
     'C05': {
